@@ -223,7 +223,7 @@ ObsStep(o, ev) ==
     [] ev.e = "Destroy" -> ObsDestroy(o0, ev)
     [] ev.e = "Final" -> ObsFinal(o0, ev)
     [] ev.e = "End" -> ObsEnd(o0, ev)
-    [] ev.e = "Fault" -> [o0 EXCEPT !.faulted = TRUE]
+    [] ev.e = "Fault" -> [o0 EXCEPT !.faulted = TRUE, !.gsites = @ \cup {"fault:" \o ev.fn}]
     [] OTHER -> o0
 
 \* what is reported for one execution
